@@ -11,64 +11,6 @@ open PrologVerif PrologVerif.VM PrologVerif.DecompileCompile PrologVerif.Activat
 
 /-! ### the reference interpreter's top level -/
 
-theorem solveAlts_frames (prog : List Term) (n d nv : Nat) (fs : List SLD.Frame) (rest : List SLD.Frame)
-    (q : Term) (limit : Nat) :
-    SLD.solveAlts false prog (n + 1) d nv [.frames fs] rest q limit =
-      match SLD.solve false prog n (d + 1) nv (fs ++ rest) q limit with
-      | none => none
-      | some r =>
-        match r.stop with
-        | .exhausted => (SLD.solveAlts false prog n d nv [] rest q (limit - r.answers.length)).map (SLD.Res.prepend r.answers)
-        | .cut c' => some { r with stop := if c' = d then .exhausted else .cut c' }
-        | _ => some r := by
-  rw [SLD.solveAlts]
-  rfl
-
-theorem hornGoal_isGoal {t : Term} (h : cutGoal t = true) : SLD.isGoal t = true := by
-  rcases cutGoal_cases h with rfl | h
-  · rfl
-  · cases t <;> simp_all [hornGoal, SLD.isGoal]
-
-theorem okBody_horn {b : Term} (h : bodyOK b = true) : SLD.okBody false b = true := by
-  simp only [SLD.okBody, Bool.false_eq_true, if_false, disjuncts_horn b h, List.all_cons, List.all_nil, Bool.and_true]
-  simp only [bodyOK, List.all_eq_true] at h ⊢
-  exact fun t ht => hornGoal_isGoal (h t ht)
-
-theorem addArgs_nil {b : Term} (hw : wfT b = true) (hnv : ∀ v, b ≠ .var v) (hc : SLD.isGoal b = true) :
-    SLD.addArgs b [] = some b := by
-  cases b with
-  | var v => exact absurd rfl (hnv v)
-  | atom f => simp [SLD.addArgs, SLD.functor, Term.mk]
-  | app f as =>
-    cases as with
-    | nil => simp [wfT] at hw
-    | cons a as' => simp [SLD.addArgs, SLD.functor, Term.mk, Args.toList, Args.ofList]
-  | _ => simp [SLD.isGoal] at hc
-
-/-- a Horn body, as a goal: atom or compound -/
-theorem hornBody_isGoal {b : Term} (h : bodyOK b = true) : SLD.isGoal b = true := by
-  cases b with
-  | var v => exact absurd rfl (bodyOK_not_var h v)
-  | atom _ => rfl
-  | app _ _ => rfl
-  | int i =>
-    simp [bodyOK, SLD.conjuncts, SLD.wrapVar, cutGoal, hornGoal] at h
-  | flt i =>
-    simp [bodyOK, SLD.conjuncts, SLD.wrapVar, cutGoal, hornGoal] at h
-  | str i =>
-    simp [bodyOK, SLD.conjuncts, SLD.wrapVar, cutGoal, hornGoal] at h
-
-theorem solve_call1 (prog : List Term) (n d nv l : Nat) (b : Term) (rest : List SLD.Frame) (q : Term) (limit : Nat)
-    (hb : bodyOK b = true) (hw : wfT b = true) :
-    SLD.solve false prog (n + 1) d nv (.goal (SLD.call1 b) l :: rest) q limit =
-      SLD.solveAlts false prog n d nv [.frames ((SLD.conjuncts b).map (SLD.Frame.goal · d))] rest q limit := by
-  have hnv := bodyOK_not_var hb
-  rw [SLD.solve]
-  · simp only [SLD.call1, SLD.functor, Args.toList, List.length_nil, Nat.not_lt_zero, if_false,
-      addArgs_nil hw hnv (hornBody_isGoal hb), okBody_horn hb, if_true, SLD.bodyAlts, Bool.false_eq_true,
-      disjuncts_horn b hb, List.map_cons, List.map_nil, SLD.bodyFrames]
-  · intro v hv; cases hv
-
 /-- how the reference reports the end of the search -/
 def sldEnd : SLD.Stop → SLD.End
   | .exhausted | .cut _ => .exhausted
@@ -76,12 +18,12 @@ def sldEnd : SLD.Stop → SLD.End
   | .raised (.app "error" (.cons formal (.cons _ .nil))) _ => .err formal
   | .raised b _ => .ball b
 
-theorem solveQuery_horn (prog : List Term) (query : Term) (max f2 : Nat) (as2 : List Term) (e2 : SLD.End)
-    (hb : bodyOK query = true) (hw : wfT query = true)
+theorem solveQuery_call (prog : List Term) (query : Term) (max f2 : Nat) (as2 : List Term) (e2 : SLD.End)
+    {fl : Bool} (hb : dbodyS fl query = true) (hw : wfT query = true) (hqnv : ∀ v, query ≠ .var v)
     (h : SLD.solveQuery f2 prog query max = some (as2, e2)) :
-    ∃ n r1, SLD.solve false (progS prog) n 1 (SLD.maxVar query)
-        ((SLD.conjuncts query).map (SLD.Frame.goal · 0)) query max = some r1 ∧
-      as2 = r1.answers ∧ e2 = sldEnd r1.stop := by
+    ∃ n r, SLD.solveAlts false (progS prog) n 0 (SLD.maxVar query)
+        ((SLD.disjuncts query).map (fun x => .frames (SLD.bodyFrames false x 0))) [] query max = some r ∧
+      as2 = r.answers ∧ e2 = sldEnd r.stop := by
   unfold SLD.solveQuery at h
   simp only [Bool.false_eq_true, if_false] at h
   change (match SLD.solve false (progS prog) f2 0 (SLD.maxVar query) [.goal (SLD.call1 query) 0] query max with
@@ -90,43 +32,14 @@ theorem solveQuery_horn (prog : List Term) (query : Term) (max f2 : Nat) (as2 : 
   cases f2 with
   | zero => rw [solve_zero] at h; cases h
   | succ f =>
-    rw [solve_call1 _ _ _ _ _ _ _ _ _ hb hw] at h
-    cases f with
-    | zero => rw [solveAlts_zero] at h; cases h
-    | succ f' =>
-      rw [solveAlts_frames, List.append_nil] at h
-      cases hs : SLD.solve false (progS prog) f' 1 (SLD.maxVar query)
-          ((SLD.conjuncts query).map (SLD.Frame.goal · 0)) query max with
-      | none => rw [hs] at h; cases h
-      | some r1 =>
-        rw [hs] at h
-        simp only at h
-        refine ⟨f', r1, hs, ?_⟩
-        cases hst : r1.stop with
-        | exhausted =>
-          rw [hst] at h
-          simp only at h
-          cases f' with
-          | zero => rw [solve_zero] at hs; cases hs
-          | succ f'' =>
-            rw [solveAlts_nil] at h
-            simp only [SLD.failed, Option.map_some, SLD.Res.prepend, List.append_nil, Option.some.injEq,
-              Prod.mk.injEq] at h
-            exact ⟨h.1.symm, h.2.symm⟩
-        | cut c =>
-          rw [hst] at h
-          simp only [Option.some.injEq, Prod.mk.injEq] at h
-          refine ⟨h.1.symm, ?_⟩
-          rw [← h.2]
-          by_cases hc : c = 0 <;> simp [hc, sldEnd]
-        | full =>
-          rw [hst] at h
-          simp only [Option.some.injEq, Prod.mk.injEq] at h
-          exact ⟨h.1.symm, by rw [← h.2, hst]⟩
-        | raised b ex =>
-          rw [hst] at h
-          simp only [Option.some.injEq, Prod.mk.injEq] at h
-          exact ⟨h.1.symm, by rw [← h.2, hst]⟩
+    rw [solve_call1M _ _ _ _ _ _ _ _ _ hb (fun f hf => by rw [hf] at hw; simp [wfT] at hw) hqnv] at h
+    cases hs : SLD.solveAlts false (progS prog) f 0 (SLD.maxVar query)
+        ((SLD.disjuncts query).map (fun x => .frames (SLD.bodyFrames false x 0))) [] query max with
+    | none => rw [hs] at h; cases h
+    | some r =>
+      rw [hs] at h
+      simp only [Option.some.injEq, Prod.mk.injEq] at h
+      exact ⟨f, r, hs, h.1.symm, h.2.symm⟩
 
 /-! ### the VM's first activation: the query's own clause -/
 
@@ -142,95 +55,16 @@ theorem unshift (k : Nat) (t : Term) : (SLD.shift k t).rename (· - k) = t := by
   rw [this, Term.rename]
   exact Term.subst_id t
 
-/-- substitutions that agree on a term agree on its variables -/
-theorem subst_eq_vars (s1 s2 : Subst) : ∀ t : Term, t.subst s1 = t.subst s2 → ∀ v, t.hasVar v = true → s1 v = s2 v := by
-  intro t
-  refine Term.rec (motive_1 := fun t => t.subst s1 = t.subst s2 → ∀ v, t.hasVar v = true → s1 v = s2 v)
-    (motive_2 := fun as => as.subst s1 = as.subst s2 → ∀ v, as.hasVar v = true → s1 v = s2 v)
-    ?_ ?_ ?_ ?_ ?_ ?_ ?_ ?_ t
-  · intro w hw v hv
-    simp only [Term.hasVar, beq_iff_eq] at hv
-    subst hv
-    simpa [Term.subst] using hw
-  · intro _ _ v hv; simp [Term.hasVar] at hv
-  · intro _ _ v hv; simp [Term.hasVar] at hv
-  · intro _ _ v hv; simp [Term.hasVar] at hv
-  · intro _ _ v hv; simp [Term.hasVar] at hv
-  · intro f as ih hw v hv
-    simp only [Term.subst, Term.app.injEq, true_and] at hw
-    exact ih hw v (by simpa [Term.hasVar] using hv)
-  · intro _ v hv; simp [Args.hasVar] at hv
-  · intro t ts iht ihts hw v hv
-    simp only [Args.subst, Args.cons.injEq] at hw
-    simp only [Args.hasVar, Bool.or_eq_true] at hv
-    rcases hv with hv | hv
-    · exact iht hw.1 v hv
-    · exact ihts hw.2 v hv
-
 theorem img_id (π : Nat → Nat) (t : Term) : img (fun v => .var v) π t = t.rename π := by
   simp only [img, Term.subst_id]
 
 section start
 variable (query : Term)
 
-/-- the unifier of `tuple(x̄)` and `tuple(ȳ)`: x = v' + B ↦ y = v' - 10 for the variables v' of the shifted query -/
-def tau0 : Subst := fun z =>
-  if SLD.maxVar query ≤ z ∧ (SLD.shift 10 query).hasVar (z - SLD.maxVar query) = true
-  then .var (z - SLD.maxVar query - 10) else .var z
-
 theorem qvar_bounds {v : Nat} (h : (SLD.shift 10 query).hasVar v = true) : 10 ≤ v ∧ v - 10 < SLD.maxVar query := by
   obtain ⟨u, hu, rfl⟩ := hasVar_shift h
   have := hasVar_lt_maxVar query hu
   omega
-
-theorem tau0_a {t : Term} (ht : ∀ v, t.hasVar v = true → (SLD.shift 10 query).hasVar v = true) :
-    (t.rename (· + SLD.maxVar query)).subst (tau0 query) = t.rename (· - 10) := by
-  rw [rename_subst]
-  apply subst_congr
-  intro v hv
-  have hq := ht v hv
-  show tau0 query (v + SLD.maxVar query) = _
-  unfold tau0
-  rw [if_pos ⟨by omega, by simpa using hq⟩]
-  simp
-
-theorem tau0_b {t : Term} (ht : ∀ v, t.hasVar v = true → (SLD.shift 10 query).hasVar v = true) :
-    (t.rename (· - 10)).subst (tau0 query) = t.rename (· - 10) := by
-  have : (t.rename (· - 10)).subst (tau0 query) = (t.rename (· - 10)).subst (fun v => .var v) := by
-    apply subst_congr
-    intro z hz
-    obtain ⟨v, hv, rfl⟩ := hasVar_rename t hz
-    have := qvar_bounds query (ht v hv)
-    unfold tau0
-    rw [if_neg (by omega)]
-  rw [this, Term.subst_id]
-
-theorem tau0_mgu {h : Term} (hh : ∀ v, h.hasVar v = true ↔ (SLD.shift 10 query).hasVar v = true) :
-    MguLike (h.rename (· + SLD.maxVar query)) (h.rename (· - 10)) (tau0 query) := by
-  refine ⟨?_, ?_, ?_⟩
-  · rw [tau0_a query (fun v hv => (hh v).1 hv), tau0_b query (fun v hv => (hh v).1 hv)]
-  · intro β hβ z
-    rw [rename_subst, rename_subst] at hβ
-    have key := subst_eq_vars _ _ h hβ
-    unfold tau0
-    split
-    · rename_i hc
-      have := key (z - SLD.maxVar query) ((hh _).2 hc.2)
-      simp only [Term.subst]
-      rw [← this]
-      congr 1
-      omega
-    · rfl
-  · intro y z hz
-    unfold tau0 at hz
-    split at hz
-    · rename_i hc
-      simp only [Term.hasVar, beq_iff_eq] at hz
-      right; right
-      rw [← hz]
-      exact hasVar_rename_of (π := (· - 10)) ((hh _).2 hc.2)
-    · simp only [Term.hasVar, beq_iff_eq] at hz
-      exact Or.inl hz.symm
 
 end start
 
